@@ -61,6 +61,24 @@ def main():
     v1, _ = verdicts(p1)
     log(f"UpdateCommand: recorded runs: {v0} verdict(s), accepted={ok0}; with one document marked as overwritten without --replace: {v1} verdict(s)")
     results.append(("UpdateCommand", ok0 and v0 == 0, v1 == 0, False))
+    # step-level trace of the update command (hook H5): change the kind of one written target / drop one event
+    src = os.path.join(WORKROOT, "C10-quick", "ucmd_steps.ndjson")
+    recs = read_ndjson(src)
+    def acc_upd(path):
+        r = tlc("UpdateCommandStepTrace", "UpdateCommandStepTrace.cfg", work, workers=1, env={"TRACE": path}, depth_first=True, timeout=600,
+                line_filter=lambda l: l.startswith("<<") or "rror" in l)
+        return bool(r.printed("ACCEPTED"))
+    base = os.path.join(work, "ucmds_base.ndjson"); write_ndjson(base, recs)
+    ok0 = acc_upd(base)
+    c1 = json.loads(json.dumps(recs))
+    idx = next(i for i, r in enumerate(c1) if r["ev"] == "UpdWrite" and i > len(c1) // 3)
+    c1[idx]["kind"] = "orig" if c1[idx]["kind"] != "orig" else "new"
+    p1 = os.path.join(work, "ucmds_corrupt.ndjson"); write_ndjson(p1, c1)
+    ok1 = acc_upd(p1)
+    p2 = os.path.join(work, "ucmds_dropped.ndjson"); write_ndjson(p2, [r for i, r in enumerate(recs) if i != idx])
+    ok2 = acc_upd(p2)
+    results.append(("UpdateCommandSteps", ok0, ok1, ok2))
+    log(f"UpdateCommand steps: unmodified trace accepted={ok0}; target kind changed accepted={ok1}; one event dropped accepted={ok2}")
     good = all(a and not b and not c for _, a, b, c in results)
     log("SELFTEST " + ("OK: the trace specifications accept the recorded traces and reject both corruptions" if good else "FAILED"))
     sys.exit(0 if good else 2)
